@@ -25,6 +25,8 @@ def gen_sequences(ctx):
     for tail in itertools.product(CORE, repeat=k):
         seqs.append(pref + list(tail)); ctx.count('exhaustive-core-tails-len-%d-behind-open-transaction' % k)
     for tail in itertools.product(CORE, repeat=k):
+        seqs.append(['ehlo', 'mail'] + list(tail)); ctx.count('exhaustive-core-tails-len-%d-behind-accepted-sender' % k)
+    for tail in itertools.product(CORE, repeat=k):
         seqs.append(list(tail)); ctx.count('exhaustive-core-len-%d' % k)
     for _ in range(1500 if ctx.quick() else 20000):
         seqs.append([rng.choice(names) for _ in range(rng.randrange(3, 14))]); ctx.count('random-vocabulary')
@@ -120,6 +122,30 @@ def run_sequences(ctx, binary, seqs, envtok, mk_scenario, name, data_verdicts=No
         if d:
             dis.append((case, d, 'model'))
         preds.append((case, 'chk_tx ' + ' '.join(events(s, obs, r, vocab)), r.fault))
+    # search for a concrete witness behind a disagreement: the lock-step client follows the model's
+    # predictions (it sends a message only where the model expects 354), so where the implementation
+    # leaves the model the rest of the transcript says little.  Run those sequences again with a
+    # client that follows what the implementation answered the first time, and judge the new
+    # transcripts with the property predicate alone.
+    if dis and not per_seq:
+        again = []
+        for s, m, r, (items, owner) in zip(seqs, models, rs, meta):
+            if m is None or len(again) >= 300:
+                continue
+            g, obs = W.observe(r, items, owner, len(s))
+            if W.compare(m, obs, r):
+                again.append((s, [{'codes': o['codes']} for o in obs]))
+        again.sort(key=lambda x: len(x[0]))
+        scs2, meta2 = [], []
+        for s, pm in again:
+            items, owner = W.build_items(s, pm, vocab=vocab, **({'msg': msg} if msg else {}))
+            sc = mk_scenario(); sc.items = items
+            scs2.append(sc); meta2.append((items, owner))
+        rs2 = session.run_sessions(ctx, binary, scs2) if scs2 else []
+        for (s, pm), r, (items, owner) in zip(again, rs2, meta2):
+            g, obs = W.observe(r, items, owner, len(s))
+            preds.append((' '.join(s), 'chk_tx ' + ' '.join(events(s, obs, r, vocab)), r.fault))
+        ctx.count('witness-search-reruns', len(again))
     ctx.cov['evaluations'] += len(seqs)
     ctx.cov['traces_validated_against_impl'] += len(seqs)
     ctx.cov['distinct_nontrivial'] += len({' '.join(s) for s, m in zip(seqs, models) if m and any(x['codes'] and x['codes'][0][0] == '2' for x in m)})
